@@ -92,6 +92,12 @@ def gen_tree(rng, root):
     for d in rng.sample(["", "d1", "d2", "d3", "d4"], rng.below(3)):
         if os.path.isdir(os.path.join(root, d)):
             rules = [rng.pick(["f00*", "*.slow", "d3/", "!f001*", "f1*.txt", "/d6", "ln*", "!*.bad"]) for _ in range(rng.range(1, 3))]
+            # anchored paths: relative to this ignore file, whichever roots are searched
+            below = [f[len(d) + 1 if d else 0:] for f in files if (not d or f.startswith(d + "/"))]
+            below = [b for b in below if "/" in b]
+            for _ in range(rng.below(3)):
+                if below:
+                    rules.append(rng.pick(["/", "", "!/"]) + rng.pick(below))
             with open(os.path.join(root, d, ".ignore"), "w") as f:
                 f.write("\n".join(rules) + "\n")
     return n
